@@ -24,7 +24,7 @@ ASSUMPTIONS = ['CachedMethods compatibility shim', 'RDKit as independent reader 
                'tetrahedral centres and double bonds; RDKit has no allene / cumulene stereo, those are judged by own parity only)',
                'ring dienes affected by the recorded writer finding are classified to it']
 CONFIG = {
-    'quick': {'shards': 16, 'budget_s': 150, 'n_corpus': 2000, 'k_spell': 10,
+    'quick': {'shards': 16, 'budget_s': 300, 'n_corpus': 2000, 'k_spell': 10,
               'floors': {'evaluations': 8000, 'distinct_nontrivial': 1200, 'perm.tetrahedral': 200, 'perm.axis': 100,
                          'table.tetrahedron-keys': 24, 'table.alkene-keys': 8, 'rdkit.smiles-compared': 3000,
                          'rdkit.wedge-compared': 300, 'isomers.sets': 40, 'edits.label-dropped': 30, 'single-label.compared': 1500,
